@@ -324,6 +324,16 @@ def run(ctx: Ctx, tier: str) -> Result:
         conds = [(norm(c), pol) for c, pol in paths.conditions(p, fb[0], cr)]
         okf = any("'service.name'" in ctx.expand.expand(ast.parse(c, mode="eval").body, cr)[0] if False else ("SERVICE_NAME" in c) for c, pol in conds) and \
             "SERVICE_NAME" in norm(fb[0].args[0]) and norm(fb[0].func.value) == norm(chain.targets[0]) if chain is not None else False
+    # "a service name" is a non-empty one: the fallback is taken whenever the combined sources hold none *or an empty one*
+    # (the condition is the truth of the name, after negation normalisation: (get(service.name), False)), not `is None`
+    if okf and len(fb) == 1:
+        raw = paths.conditions(p, fb[0], cr)
+        by_truth = any((not pol) and isinstance(c_, ast.Call) and "SERVICE_NAME" in norm(c_) for c_, pol in raw) or \
+            any(pol and isinstance(c_, ast.Compare) and "SERVICE_NAME" in norm(c_) and any(isinstance(o, (ast.Eq, ast.In)) for o in c_.ops) and "''" in norm(c_) for c_, pol in raw)
+        if not by_truth:
+            okf = False
+            res.fail(Finding("C18.CHAIN", cr.qname, raw[0][0] if raw else fb[0], cr.loc(fb[0]), "the service-name fallback is taken only when `%s`: a service.name that is present but empty "
+                             "is kept, and the resource sent with every poll and snapshot names no service" % (norm(raw[0][0])[:60] if raw else "?")))
     rets = [r for r in t.nodes_in(cr, ast.Return)]
     if okf and len(rets) == 1 and chain is not None and norm(rets[0].value) == norm(chain.targets[0]):
         res.ok("C18.CHAIN", {"service name fallback": norm(fb[0])[:90]})
